@@ -13,6 +13,7 @@ import MesonModel.Sched.SelectLemmas
 import MesonModel.Sched.ReplayLemmas
 import MesonModel.Sched.RepeatLemmas
 import MesonModel.Sched.Timeout
+import MesonModel.Sched.ArgsLemmas
 
 namespace MesonModel.Props.C12
 open MesonModel.Sched MesonModel.Sched.TestResult
@@ -611,6 +612,85 @@ theorem getTests_slice {α} (suitable : α → Bool) (tests : List α) (i n : Na
     getTests suitable (some (i, n)) tests =
       if n > (tests.filter suitable).length then .error .tooManySlices
       else .ok (pySlice (tests.filter suitable) i n) := rfl
+
+/-! ### Selection by positional test names (`meson test NAME…`, `tests_from_args`) -/
+
+/-- a test is selected iff it is in the (suitable) test list and SOME argument matches it — for every argument
+list (overlapping, duplicate, disjoint), every test list and every matching relation -/
+theorem args_select_iff {α β} (m : α → β → Bool) (pats : List β) (tests out : List α)
+    (h : testsFromArgs m pats tests = .ok out) (t : α) :
+    t ∈ out ↔ t ∈ tests ∧ ∃ p, p ∈ pats ∧ m t p = true := by
+  rw [testsFromArgs_ok h]
+  simp [List.mem_filter, List.any_eq_true]
+
+/-- each selected test once, in test-list order: the selection is a sublist of the test list (a test matched by
+several arguments is not repeated), so it has no duplicates when the test list has none -/
+theorem args_no_duplicates {α β} (m : α → β → Bool) (pats : List β) (tests out : List α)
+    (h : testsFromArgs m pats tests = .ok out) :
+    out.Sublist tests ∧ (tests.Nodup → out.Nodup) ∧
+    out = tests.filter (fun t => pats.any (fun p => m t p)) := by
+  have e := testsFromArgs_ok h
+  refine ⟨by rw [e]; exact List.filter_sublist, fun hn => ?_, e⟩
+  rw [e]; exact hn.filter _
+
+/-- the run is refused iff some argument matches no test at all -/
+theorem args_refused_iff {α β} (m : α → β → Bool) (pats : List β) (tests : List α) :
+    testsFromArgs m pats tests = .error .noMatch ↔ ∃ p, p ∈ pats ∧ ∀ t ∈ tests, m t p = false := by
+  rw [testsFromArgs_error_iff]
+
+/-- the documented argument forms: `name`, `:name` (any project), `project:` (all its tests), `project:name` -/
+theorem arg_pattern_forms (prj nm : Str) (h1 : ':' ∉ prj) (hp : prj ≠ []) (hn : nm ≠ []) :
+    (':' ∉ nm → argPattern nm = (['*'], nm)) ∧
+    argPattern (':' :: nm) = (['*'], nm) ∧
+    argPattern (prj ++ [':']) = (prj, ['*']) ∧
+    argPattern (prj ++ ':' :: nm) = (prj, nm) := by
+  refine ⟨?_, ?_, ?_, ?_⟩
+  · intro h; simp [argPattern, h]
+  · have := splitSuite_colon [] nm (by simp)
+    simp only [List.nil_append] at this
+    simp [argPattern, this, hn]
+  · have := splitSuite_colon prj [] h1
+    simp [argPattern, this, hp]
+  · have := splitSuite_colon prj nm h1
+    simp [argPattern, this, hp, hn]
+
+/-- `*` matches every name (so `project:` takes every test of the project), a pattern without wildcards matches
+exactly itself -/
+theorem glob_rules (s p : Str) (hp : ∀ c ∈ p, c ≠ '*' ∧ c ≠ '?') :
+    globMatch ['*'] s = true ∧ (globMatch p s = true ↔ p = s) :=
+  ⟨globMatch_star s, globMatch_literal p hp s⟩
+
+/-- `get_tests` with positional arguments and a slice: still each test of the list at most once, in order -/
+theorem getTestsArgs_no_duplicates {α β} (suitable : α → Bool) (m : α → β → Bool) (pats : List β)
+    (slice : Option (Nat × Nat)) (tests out : List α)
+    (h : getTestsArgs suitable m pats slice tests = .ok out) :
+    out.Sublist tests ∧ (tests.Nodup → out.Nodup) := by
+  have key : out.Sublist tests := by
+    simp only [getTestsArgs] at h
+    generalize hq : (if pats.isEmpty = true then Except.ok (tests.filter suitable)
+      else testsFromArgs m pats (tests.filter suitable)) = q at h
+    cases q with
+    | error e => simp at h
+    | ok ts1 =>
+      have s1 : ts1.Sublist tests := by
+        split at hq
+        · simp only [Except.ok.injEq] at hq; rw [← hq]; exact List.filter_sublist
+        · exact ((args_no_duplicates m pats _ ts1 hq).1).trans List.filter_sublist
+      cases slice with
+      | none => simp only [Except.ok.injEq] at h; rw [← h]; exact s1
+      | some sl =>
+        obtain ⟨i, n⟩ := sl
+        simp only at h
+        split at h
+        · cases h
+        · simp only [Except.ok.injEq] at h; rw [← h]; exact (slice_sublist _ _ _).trans s1
+  exact ⟨key, fun hn => hn.sublist key⟩
+
+/-- overlapping arguments `t1 t*` on tests t0 t1 t2: every test once -/
+example : (testsFromArgs patMatches (["t1".toList, "t*".toList].map argPattern)
+      ([("t0"), ("t1"), ("t2")].map (fun n => ({ name := n.toList, project := "p".toList, suites := [] } : TestDesc)))).toOption.map
+        (·.map (·.name)) = some ["t0".toList, "t1".toList, "t2".toList] := by
+  simp [testsFromArgs, patMatches, argPattern, globMatch, Except.toOption]
 
 /-! ### Suite selection -/
 
